@@ -221,7 +221,7 @@ pub fn rss_gb() -> f64 {
 }
 
 pub fn max_rss_gb() -> f64 {
-    std::env::var("VERIF_MAX_RSS_GB").ok().and_then(|s| s.parse().ok()).unwrap_or(16.0)
+    std::env::var("VERIF_MAX_RSS_GB").ok().and_then(|s| s.parse().ok()).unwrap_or(24.0)
 }
 
 /// Wall-clock budget shared by the workers of one check.
